@@ -3351,3 +3351,8 @@ package sftp
 //@ func (*RequestServer).Serve$2
 //@   property C10, C07
 //@   requires rs != nil && rs.serverConn != nil && rs.WriteCloser != nil && rsOK(rs) && ctx != nil && MaxFilelist >= 1 && MaxFilelist <= 1000000 && okPath(rs.startDirectory) && reqsPathOK(rs)
+
+// C18: the configured reply size is the one asked for, whether or not the allocator is on (seed C18-19 clamped it to a
+// page when the allocator had been enabled first); stated about the value the option was created with.
+//@ extend func WithMaxTxPacket$1
+//@   ensures result == nil ==> s.maxTxPacket == old(size)
